@@ -212,6 +212,19 @@ CHECKS = {
         "(analyzer, exception class, innermost sqllineage frame) from known_findings.json.",
         "DESIGN.md section 5 C10",
     ),
+    "C11": (
+        "vmc/c11.py + vmc/hashctl.py (E4 controlled hashing)",
+        "model_checking",
+        "exhaustive enumeration of hash assignments of the library's model objects (all permutations for <= 6 names, ordered pairs / triples at the front beyond), accessor-order "
+        "permutations, repetitions; real PYTHONHASHSEED subprocesses validated against the explored outcome set",
+        "The __hash__ of Schema, Table, Path, SubQuery, Column is replaced by a table the harness controls; for each of 31 scripts (quick; + the whole corpus in thorough) chosen so "
+        "that every set-typed site is reached with >= 2 elements, every assignment in the stated bound is executed on the real analysis and the full public observation (summary, "
+        "column paths, both exports in normal form) must be the same; all 24 orders of the four accessors with each called twice on one runner; three repetitions in one process "
+        "and on one reused provider. States = hash assignments executed; traces validated = real subprocess runs with different PYTHONHASHSEED that must lie in the outcome set.",
+        "Trusted: ascending-hash iteration of CPython sets for small distinct hashes (self-tested in setup); str-keyed sets inside third-party code are only sampled by the real-seed "
+        "runs. Known hash-order dependent findings matched exactly (script, outcome set) from pins/C11.json.",
+        "DESIGN.md section 5 C11",
+    ),
 }
 
 NOT_YET = "check not built yet in this revision (planned in DESIGN.md section 5/11); not claimed"
